@@ -101,5 +101,44 @@ Definition ops_C10_wide : list opdef := [
            match c10w_node q, c10w_node r, c10w_as_optz c0, c10w_as_optz c1, c10w_as_optz nx with
            | Some q, Some r, Some c0, Some c1, Some nx => family_ok h q r wq c0 c1 nx wr
            | _, _, _, _, _ => false end
+       | _, _ => false end |};
+  (* observation: [sign of strings.Compare(PathStr w1, PathStr w2), PathStr w1, PathStr w2] *)
+  {| op_name := "bmtree.PathStr/order";
+     op_run := fun a => match a with
+       | [VZ h; q1; q2] => match c10w_node q1, c10w_node q2 with
+           | Some q1, Some q2 =>
+               if c10w_dom h q1 && c10w_dom h q2 then
+                 match c10w_word h q1, c10w_word h q2 with
+                 | Some w1, Some w2 =>
+                     VL [VZ (cmp_sign (bytes_cmp (PathStr w1) (PathStr w2))); vzs (PathStr w1); vzs (PathStr w2)]
+                 | _, _ => VPanic end
+               else VBad
+           | _, _ => VBad end
+       | _ => VBad end;
+     op_spec := fun a obs => match a, obs with
+       | [VZ h; q1; q2], VL [VZ sg; s1; s2] =>
+           match c10w_node q1, c10w_node q2, as_zs s1, as_zs s2 with
+           | Some q1, Some q2, Some s1, Some s2 => strorder_ok q1 q2 sg s1 s2
+           | _, _, _, _ => false end
+       | _, _ => false end |};
+  (* observation: [w, NewPath(ParseUint(PathStr w, 2) << (h - len), len, h)] *)
+  {| op_name := "bmtree.PathStr/parse";
+     op_run := fun a => match a with
+       | [VZ h; q] => match c10w_node q with
+           | Some q =>
+               if c10w_dom h q then
+                 match c10w_word h q with
+                 | Some w =>
+                     let s := PathStr w in
+                     match NewPath_full (shl64 (parse_bin s) (h - zlen s)) (zlen s) h with
+                     | Some w2 => VL [VZ w; VZ w2]
+                     | None => VPanic end
+                 | None => VPanic end
+               else VBad
+           | None => VBad end
+       | _ => VBad end;
+     op_spec := fun a obs => match a, obs with
+       | [VZ h; q], VL [VZ w; VZ w2] =>
+           match c10w_node q with Some q => strparse_ok h q w w2 | None => false end
        | _, _ => false end |}
 ].
